@@ -527,7 +527,7 @@ func (hh hostHandler) ServeHTTP(w http.ResponseWriter, r *http.Request) {
 // concrete spelling of the abstract filters
 // ---------------------------------------------------------------------------
 
-var tagPool = []string{"v1", "v10", "xv2", "v2", "latest"}
+var tagPool = []string{"v1", "v10", "xv2", "v2", "latest", "V2"}
 var repoPool = []string{"r1", "r10", "r2", "xr2"}
 
 var classTable = map[string]string{
@@ -554,36 +554,93 @@ var classTable = map[string]string{
 	"r2":                   `r2`,
 }
 
-func spell(f filter) string {
-	if len(f.Tags) == 0 {
-		if f.Style == "class" {
-			return classTable[""]
+// lowerUniq: the names in lower case, each once, in order
+func lowerUniq(names []string) []string {
+	out := []string{}
+	seen := map[string]bool{}
+	for _, n := range names {
+		l := strings.ToLower(n)
+		if !seen[l] {
+			seen[l] = true
+			out = append(out, l)
 		}
-		return "nomatch"
+	}
+	return out
+}
+
+// candidate spells the subset in the requested style without looking at the pool; spell falls back
+// to a plain group when that candidate does not select exactly the subset.
+//
+//	alt      a|b           top level alternation
+//	group    (a|b)
+//	class    table of character class / quantifier forms (v\d+, x?v2, l.*t, ...)
+//	iflag    (?i)a|b       unclosed inline flag at the start of the entry + top level alternation
+//	iscoped  (?i:a|b)      flag scoped to its own group
+//	sflag    (?s)a|b       a flag that changes nothing for these names
+//	uflag    (?U)(a|b)     ungreedy
+//	anch     ^(a|b)$       the user's own anchors inside the entry
+//	quant    [a]{1}rest|.. every name with a class and a counted repetition
+//	empty    ""            the empty entry (only for the empty subset)
+func candidate(f filter) string {
+	none := "nomatch"
+	join := strings.Join(f.Tags, "|")
+	if len(f.Tags) == 0 {
+		join = none
 	}
 	switch f.Style {
 	case "alt":
-		return strings.Join(f.Tags, "|")
+		return join
 	case "group":
-		return "(" + strings.Join(f.Tags, "|") + ")"
+		return "(" + join + ")"
 	case "class":
 		s := append([]string(nil), f.Tags...)
 		sort.Strings(s)
 		if c, ok := classTable[strings.Join(s, ",")]; ok {
 			return c
 		}
-		return "(?:" + strings.Join(f.Tags, "|") + ")"
+		return "(?:" + join + ")"
+	case "iflag":
+		if len(f.Tags) == 0 {
+			return "(?i)" + none
+		}
+		return "(?i)" + strings.Join(lowerUniq(f.Tags), "|")
+	case "iscoped":
+		if len(f.Tags) == 0 {
+			return "(?i:" + none + ")"
+		}
+		return "(?i:" + strings.Join(lowerUniq(f.Tags), "|") + ")"
+	case "sflag":
+		return "(?s)" + join
+	case "uflag":
+		return "(?U)(" + join + ")"
+	case "anch":
+		return "^(" + join + ")$"
+	case "quant":
+		parts := []string{}
+		for _, t := range f.Tags {
+			parts = append(parts, "["+t[:1]+"]{1}"+t[1:])
+		}
+		if len(parts) == 0 {
+			return "[n]{1}omatch"
+		}
+		return strings.Join(parts, "|")
+	case "empty":
+		if len(f.Tags) == 0 {
+			return ""
+		}
+		return "(" + join + ")"
 	}
 	fatal("unknown filter style %q", f.Style)
 	return ""
 }
 
-// selfCheck: the spelled expression, matched against the whole string, selects exactly the abstract
-// subset of the pool (tooling sanity; the abstract subset is what the property monitor uses).
-func selfCheck(f filter, pool []string, extra []string) {
-	re, err := regexp.Compile(`^(?:` + spell(f) + `)$`)
+// exact: the expression, as ONE entry bound to both ends, selects exactly the subset of the pool.
+// (Go's regexp on "^(?:entry)$" for one entry at a time is the independent reading of "entry e
+// matches name n"; how regsync combines the entries of a list is what is under test.)
+func exact(expr string, f filter, pool []string) bool {
+	re, err := regexp.Compile(`^(?:` + expr + `)$`)
 	if err != nil {
-		fatal("spelling of %v does not compile: %v", f, err)
+		return false
 	}
 	in := map[string]bool{}
 	for _, t := range f.Tags {
@@ -591,12 +648,33 @@ func selfCheck(f filter, pool []string, extra []string) {
 	}
 	for _, t := range pool {
 		if re.MatchString(t) != in[t] {
-			fatal("spelling %q of %v is wrong on %q", spell(f), f.Tags, t)
+			return false
 		}
 	}
+	return true
+}
+
+func spell(f filter, pool []string) string {
+	if c := candidate(f); exact(c, f, pool) {
+		return c
+	}
+	if len(f.Tags) == 0 {
+		return "nomatch"
+	}
+	return "(?:" + strings.Join(f.Tags, "|") + ")"
+}
+
+// selfCheck: the spelled expression, matched against the whole string, selects exactly the abstract
+// subset of the pool (tooling sanity; the abstract subset is what the property monitor uses).
+func selfCheck(f filter, pool []string, extra []string) {
+	expr := spell(f, pool)
+	if !exact(expr, f, pool) {
+		fatal("spelling %q of %v (%s) is wrong on the pool", expr, f.Tags, f.Style)
+	}
+	re := regexp.MustCompile(`^(?:` + expr + `)$`)
 	for _, t := range extra {
 		if re.MatchString(t) {
-			fatal("spelling %q of %v matches %q", spell(f), f.Tags, t)
+			fatal("spelling %q of %v matches %q", expr, f.Tags, t)
 		}
 	}
 }
@@ -713,7 +791,7 @@ func writeConfig(fn string, c conf, u *universe, addr map[string]string, variant
 			fmt.Fprintf(&b, "      %s:\n", p.k)
 			for _, f := range p.l {
 				selfCheck(f, pool, []string{u.digTag, "old", "bak-v1", "v1-old", "backups/r1", "keep"})
-				fmt.Fprintf(&b, "        - %s\n", yq(spell(f)))
+				fmt.Fprintf(&b, "        - %s\n", yq(spell(f, pool)))
 			}
 		}
 	}
